@@ -49,7 +49,7 @@ def field(rng, names, p_missing=0.12, p_null=0.08):
 
 
 def lit_num(rng):
-    return rng.choice([0, 1, 2, 3, -1, 5, 1.5, 0.5, -2.5, 2.0])
+    return rng.choice([0, 1, 2, 3, -1, 5, 1.5, 0.5, -2.5, 2.0, -7, 7])
 
 
 def lit_str(rng):
@@ -89,7 +89,11 @@ def gen(rng, depth, ty='any', sc=None, wild=0.04):
                                {'$literal': rng.choice([1, 0, 2.5])}])
         k = rng.choice(['$add', '$add', '$subtract', '$multiply', '$abs', '$size', '$cond', '$ifNull', '$sum',
                         '$sum1', '$avg', '$min', '$max', '$arrayElemAt', '$let', '$switch', '$strcasecmp',
-                        '$hour', '$first', '$subtract_dates'])
+                        '$hour', '$first', '$subtract_dates', '$mod', '$divide', '$floor'])
+        if k in ('$mod', '$divide'):
+            return {k: [gen(rng, depth - 1, 'num', sc), rng.choice([gen(rng, depth - 1, 'num', sc), 2, -3, 4, 0.5, 0])]}
+        if k == '$floor':
+            return {rng.choice(['$floor', '$ceil', '$trunc']): gen(rng, depth - 1, 'num', sc)}
         if k in ('$add', '$multiply'):
             return {k: [gen(rng, depth - 1, 'num', sc) for _ in range(rng.choice([1, 2, 2, 3]))]}
         if k == '$subtract':
@@ -169,6 +173,13 @@ def gen(rng, depth, ty='any', sc=None, wild=0.04):
             sc2 = Scope()
             sc2.vars = sc.vars + [(name, 'any')]
             body = gen(rng, depth - 1, 'any' if k == '$map' else rng.choice(['bool', 'bool', 'any']), sc2)
+            if k == '$map' and rng.random() < 0.3:
+                # an inner binder that shadows the variable, read again afterwards
+                inner = {'$map': {'input': rng.choice([[1, 2], '$a', ['p']]), 'in': rng.choice(['$$' + name, 7])}}
+                if name != 'this':
+                    inner['$map']['as'] = name
+                body = rng.choice([{'u': inner, 'p': '$$' + name}, {'$concatArrays': [inner, ['$$' + name]]},
+                                   [inner, '$$' + name]])
             spec = {'input': inp, ('in' if k == '$map' else 'cond'): body}
             if name != 'this' or rng.random() < 0.3:
                 spec['as'] = name
@@ -204,7 +215,11 @@ def control(rng, k, depth, ty, sc):
         vt = rng.choice(['num', 'str', 'arr', 'doc', ty])
         sc2 = Scope()
         sc2.vars = sc.vars + [(name, vt)]
-        return {k: {'vars': {name: gen(rng, depth - 1, vt, sc)}, 'in': gen(rng, depth - 1, ty, sc2)}}
+        body = gen(rng, depth - 1, ty, sc2)
+        if rng.random() < 0.25:
+            inner = {'$map': {'input': rng.choice([[1, 2], '$a']), 'as': name, 'in': '$$' + name}}
+            body = rng.choice([[inner, '$$' + name], {'u': inner, 'p': '$$' + name}])
+        return {k: {'vars': {name: gen(rng, depth - 1, vt, sc)}, 'in': body}}
     if k == '$switch':
         spec = {'branches': [{'case': gen(rng, depth - 1, 'bool', sc), 'then': gen(rng, depth - 1, ty, sc)}
                              for _ in range(rng.choice([1, 2]))]}
